@@ -1104,4 +1104,137 @@ Proof.
     refine (conj H1 (conj H2 (conj H3 (conj H4 (conj eq_refl (conj _ (conj Hrest' (conj Hb Hg')))))))).
     unfold entry_rel. cbn [fst snd set_start r_cfa r_args r_regs]. repeat split; auto.
 Qed.
+
+Definition step_rel (ini : option rmap) (rm : res (bool * tbl)) (rs : res (sstate * option srow)) : Prop :=
+  match rm, rs with
+  | Ok (false, t'), Ok (s', None) => R ini t' s'
+  | Ok (true, t'), Ok (s', Some sr) =>
+      Rdone ini t' s' /\ exists tp', top (t_ctx t') = Ok tp' /\ row_equiv tp' sr
+  | Err e, Err e' => e = e'
+  | _, _ => False
+  end.
+
+Lemma R_guard ini t s : R ini t s -> guard c ini s = Ok tt.
+Proof. intros (tp & rest & bottom & (_ & _ & _ & _ & _ & _ & _ & _ & Hg) & _). exact Hg. Qed.
+
+Lemma R_params ini t s :
+  R ini t s -> t_caf t = sp_caf p /\ t_daf t = sp_daf p /\ t_asize t = sp_asize p /\ valid_asize (sp_asize p) = true.
+Proof. intros (tp & rest & bottom & (H1 & H2 & H3 & H4 & _) & _). auto. Qed.
+
+Lemma sim_row ini t s a :
+  R ini t s ->
+  exists cx, with_top (set_end a) (t_ctx t) = Ok cx /\
+    guard c ini (with_loc a s) = Ok tt /\
+    Rdone ini (with_ctx cx (with_next_start a t)) (with_loc a s) /\
+    exists tp', top cx = Ok tp' /\ row_equiv tp' (row_of s a).
+Proof.
+  intros (tp & rest & bottom & HR & Hl).
+  pose proof HR as (H1 & H2 & H3 & H4 & Hst & Htop & Hrest & Hb & Hg).
+  rewrite (with_top_eq _ _ _ _ Hst). eexists. split; [reflexivity|].
+  assert (Hg' : guard c ini (with_loc a s) = Ok tt) by exact Hg.
+  split; [exact Hg'|]. split.
+  - exists (set_end a tp), rest, bottom. split; [|reflexivity].
+    unfold Rcore. cbn [t_caf t_daf t_asize t_ctx with_ctx with_next_start c_stack c_init c_initial_rule].
+    refine (conj H1 (conj H2 (conj H3 (conj H4 (conj eq_refl (conj _ (conj Hrest (conj Hb Hg')))))))).
+    apply entry_rel_set_end. exact Htop.
+  - exists (set_end a tp). split; [reflexivity|].
+    destruct Htop as (E1 & E2 & E3 & _). cbn [fst snd] in *.
+    unfold row_equiv, row_of. cbn. repeat split; auto.
+Qed.
+
+Ltac spec_ok :=
+  unfold step_lim; cbn [spec_step bind].
+
+Theorem step_sim ini t s i :
+  R ini t s -> step_rel ini (evaluate c t i) (step_lim c p ini s i).
+Proof.
+  intros HR.
+  pose proof (R_guard _ _ _ HR) as Hg.
+  pose proof (R_params _ _ _ HR) as (Pc & Pd & Pa & Pv).
+  destruct (R_top _ _ _ HR) as (tp & Htp & Tl & Tc & Ta & Tm).
+  assert (Hcfa : forall cf, step_rel ini (t_upd_top (set_cfa cf) t)
+                   (let* _ := guard c ini (with_cfa cf s) in Ok (with_cfa cf s, None))).
+  { intros cf.
+    assert (F1 : forall r, r_start (set_cfa cf r) = r_start r /\ r_regs (set_cfa cf r) = r_regs r)
+      by (intros r; cbn; auto).
+    assert (F2 : forall r, r_cfa r = s_cfa s -> r_args r = s_args s ->
+                 r_cfa (set_cfa cf r) = s_cfa (with_cfa cf s) /\ r_args (set_cfa cf r) = s_args (with_cfa cf s))
+      by (intros r _ Hr; cbn; auto).
+    destruct (sim_upd_top ini t s (set_cfa cf) (with_cfa cf s) HR F1 F2 eq_refl eq_refl eq_refl)
+      as (t' & E & HR' & Hg').
+    rewrite E, Hg'. exact HR'. }
+  assert (Hset : forall r x, step_rel ini (t_set_rule c r x t)
+                   (let* _ := guard c ini (set_rule r x s) in Ok (set_rule r x s, None))).
+  { intros r x. pose proof (sim_set_rule ini t s r x HR) as H.
+    destruct (t_set_rule c r x t) as [[b t']|e| |]; destruct (guard c ini (set_rule r x s)) as [[]|e'| |];
+      cbn [bind step_rel]; try contradiction; auto.
+    destruct H as (-> & H). exact H. }
+  destruct i; spec_ok; cbn [evaluate].
+  - (* ISetLoc *)
+    rewrite Htp. cbn [bind]. rewrite Tl.
+    destruct (a <? s_loc s); [reflexivity|].
+    destruct (sim_row ini t s a HR) as (cx & E & Hg' & Hd & Hrow).
+    cbn [bind t_ctx with_next_start]. rewrite E, Hg'. cbn [bind step_rel]. split; [exact Hd|].
+    cbn [t_ctx with_ctx]. exact Hrow.
+  - (* IAdvanceLoc *)
+    rewrite Htp. cbn [bind]. rewrite Tl, Pc, Pa, (add_sized_spec _ _ _ Pv).
+    destruct (2 ^ (8 * sp_asize p) <=? s_loc s + wrap64 (d * sp_caf p)); [reflexivity|].
+    destruct (sim_row ini t s (s_loc s + wrap64 (d * sp_caf p)) HR) as (cx & E & Hg' & Hd & Hrow).
+    cbn [bind t_ctx with_next_start]. rewrite E, Hg'. cbn [bind step_rel]. split; [exact Hd|].
+    cbn [t_ctx with_ctx]. exact Hrow.
+  - (* IDefCfa *) rewrite to_i64_wrap. apply Hcfa.
+  - (* IDefCfaSf *) unfold factored, wrap_i64. rewrite <- Pd. apply Hcfa.
+  - (* IDefCfaRegister *)
+    rewrite Htp. cbn [bind]. rewrite Tc. destruct (s_cfa s); [apply Hcfa|reflexivity].
+  - (* IDefCfaOffset *)
+    rewrite Htp. cbn [bind]. rewrite Tc. destruct (s_cfa s); [|reflexivity].
+    rewrite to_i64_wrap. apply Hcfa.
+  - (* IDefCfaOffsetSf *)
+    rewrite Htp. cbn [bind]. rewrite Tc. destruct (s_cfa s); [|reflexivity].
+    unfold factored, wrap_i64. rewrite <- Pd. apply Hcfa.
+  - (* IDefCfaExpression *) apply Hcfa.
+  - (* IUndefined *) apply Hset.
+  - (* ISameValue *) apply Hset.
+  - (* IOffset *) rewrite wmul_to_i64, Pd. apply Hset.
+  - (* IOffsetExtendedSf *) unfold factored, wrap_i64. rewrite <- Pd. apply Hset.
+  - (* IValOffset *) rewrite wmul_to_i64, Pd. apply Hset.
+  - (* IValOffsetSf *) unfold factored, wrap_i64. rewrite <- Pd. apply Hset.
+  - (* IRegister *) apply Hset.
+  - (* IExpression *) apply Hset.
+  - (* IValExpression *) apply Hset.
+  - (* IRestore *)
+    rewrite (sim_get_initial ini t s r HR). cbn [bind].
+    destruct ini as [m|]; [|reflexivity].
+    destruct (lookup r m) as [x|] eqn:El; cbn [update].
+    + apply Hset.
+    + destruct (sim_clear (Some m) t s r HR) as (cx & E & HR' & Hg').
+      rewrite E. cbn [bind]. rewrite Hg'. cbn [bind step_rel]. exact HR'.
+  - (* IRememberState *)
+    pose proof (sim_push ini t s HR) as H. cbv zeta in H.
+    set (s' := {| s_loc := s_loc s; s_cfa := s_cfa s; s_rules := s_rules s; s_args := s_args s;
+                  s_stack := (s_cfa s, s_rules s, s_args s) :: s_stack s |}) in *.
+    destruct (push_row c (t_ctx t)) as [cx|e| |]; destruct (guard c ini s') as [[]|e'| |];
+      cbn [bind step_rel]; try contradiction; auto.
+  - (* IRestoreState *)
+    rewrite Htp. cbn [bind].
+    pose proof (sim_pop ini t s HR) as H.
+    destruct (pop_row (t_ctx t)) as [cx|e| |]; destruct (s_stack s) as [|[[cf m] a] st];
+      cbn [bind step_rel]; try contradiction; auto.
+    destruct H as (e & rest' & _ & H). destruct (H (r_start tp)) as (cx2 & E & H2).
+    rewrite E. cbn [bind]. destruct (H2 (s_loc s) (eq_sym Tl)) as (HR' & Hg').
+    rewrite Hg'. cbn [bind step_rel]. exact HR'.
+  - (* IArgsSize *)
+    assert (F1 : forall r, r_start (set_args n r) = r_start r /\ r_regs (set_args n r) = r_regs r)
+      by (intros r; cbn; auto).
+    assert (F2 : forall r, r_cfa r = s_cfa s -> r_args r = s_args s ->
+                 r_cfa (set_args n r) = s_cfa (with_args n s) /\ r_args (set_args n r) = s_args (with_args n s))
+      by (intros r Hr _; cbn; auto).
+    destruct (sim_upd_top ini t s (set_args n) (with_args n s) HR F1 F2 eq_refl eq_refl eq_refl)
+      as (t' & E & HR' & Hg').
+    rewrite E, Hg'. exact HR'.
+  - (* INegateRaState *)
+    rewrite Htp. cbn [bind]. unfold rm_get. rewrite (Tm RA_SIGN_STATE).
+    destruct (lookup RA_SIGN_STATE (s_rules s)) as [[]|]; try reflexivity; apply Hset.
+  - (* INop *) rewrite Hg. cbn [bind step_rel]. exact HR.
+Qed.
 End Sim.
